@@ -325,6 +325,28 @@ PROPS["C19"] = {
     ],
 }
 
+PROPS["C14"] = {
+    "level": "exploration",
+    "rule": "cases are (script family, template variant, placement, timeout source, limit, bindings): families value (6 templates whose "
+            "value the generator computes from the bindings x, s), throwing (3), syntactically invalid (3), non-terminating (4: "
+            "while(true), for(;;), unbounded recursion, counting loop), slow-but-finishing (Env.sleep for a quarter of the limit, a "
+            "2000-iteration loop); placement in {Location.RunJavascript, rule action, rule condition}; timeout from the location "
+            "control, the system default or disabled (terminating families only); limit in {20,50,100,200} ms. Real time. Oracle: a "
+            "non-terminating script returns control no earlier than the limit and no later than limit + 5 s (hard bound), as an "
+            "error / non-complete node, never as success, and a condition that fails runs no action; throwing and invalid scripts "
+            "are errors on their node; value and slow scripts give exactly the expected value with a complete disposition (a "
+            "condition keeps the binding iff the value is truthy). Non-trivial = every case except throw/syntax. Distinct = distinct "
+            "canonical JSON (the space is small: a few thousand distinct cases).",
+    "assumptions": COMMON_ASSUMPTIONS + [
+        "real time: 'not before the limit' is exact; 'not later' uses a 5 s hard bound (a stop later than limit + 1 s is only counted)",
+        "Env.sleep is a Go call that the interpreter cannot interrupt; scripts sleep for less than the limit only",
+    ],
+    "parts": [
+        {"name": "scripts", "mode": "plain", "test": "TestC14",
+         "quick": {"checks": 120, "shards": 6, "timeout": 600}, "thorough": {"checks": 1500, "shards": 16}},
+    ],
+}
+
 # Properties deliberately not claimed (reason shown in MANIFEST.not_applicable).
 NOT_APPLICABLE = {}
 
@@ -400,6 +422,11 @@ TEXT = {
         "technique": _PBT + "generated histories on protected/unprotected twin locations (differential) with an authorisation oracle per operation x protection state x caller context; storage snapshot invariance for refused calls",
         "level_text": "Generated exploration of the operation x protection x context matrix at arbitrary points of a history, including action-issued writes. Not a proof.",
         "level_note": "Trusted: the authorisation table in props/c19_test.go (derived from the statement), twin comparison.",
+    },
+    "C14": {
+        "technique": _PBT + "generated scripts from five families x placements x timeout sources, with generator-known values (round-trip) and real-time containment bounds",
+        "level_text": "Generated exploration of script families in every placement and timeout configuration; hangs are detected by an in-test deadline and by the runner. Not a proof.",
+        "level_note": "Trusted: wall clock with a generous hard bound; the template families' expected values.",
     },
     "C05": {
         "technique": _PBT + "generated (pattern, data, bindings) vs independent brute-force matcher; substitution round-trip; metamorphic typed variants",
